@@ -91,8 +91,8 @@ def loadLoop (ck : Bytes → Nat) (valid : Bytes → Bool) : Nat → Bytes → O
         | none => e.index = 0
         | some p => e.index = p + 1
       if !idxOk then .error .corrupted
-      else if !valid e.cmd then .error .badCommand
       else if ck e.ckInput ≠ e.checksum then .error .badChecksum
+      else if !valid e.cmd then .error .badCommand        -- parsed only after the checksum (fix 0e1955d)
       else if rest.isEmpty then .ok (e :: acc).reverse
       else loadLoop ck valid fuel rest (some e.index) (e :: acc)
 
